@@ -47,7 +47,7 @@ def boundary_values(t, rng):
         h = 1 << (8 * n - 1)
         return ["0", "-1", str(h - 1), str(-h), str(rng.randrange(-h, h))]
     if kind == "R":
-        return ["0.0", "1.5", "-2.25e10", repr(rng.random())]
+        return ["0.0", "-0.0", "1.5", "-2.25e10", repr(rng.random()), "float('inf')" if False else "3.4e38" if n == 4 else "1.7e308"]
     return [repr(bytes(n)), repr(b"\xff" * n), repr(rng.randbytes(n))]
 
 
@@ -100,6 +100,12 @@ def run(ctx):
             yield ("lookup", {"dir": "name2key", "name": n})
         for _ in range(400 if not ctx.thorough else 5000):
             yield ("lookup", {"dir": "key2name", "key": unknown_item(rng.randrange(1, 6))["key"]})
+        # reserved bits of a key ID set (12..15, 24..27: other, undocumented keys; 31 and size codes 0, 6, 7: invalid IDs)
+        for e in rng.sample(db, 60):
+            k = key_int(e)
+            for bit in (12, 15, 24, 27, 31):
+                yield ("lookup", {"dir": "key2name", "key": k ^ (1 << bit)})
+            yield ("lookup", {"dir": "key2name", "key": (k & 0x8FFFFFFF) | (rng.choice((0, 6, 7)) << 28)})
         for e in (db if ctx.thorough else rng.sample(db, 400)):
             yield ("lookup", {"dir": "key2name", "key": near_miss(e)["key"]})
 
@@ -141,6 +147,14 @@ def run(ctx):
             yield ("helper", {"fn": "config_set", "a": rng.randrange(0, 8), "b": rng.randrange(0, 4), "items": its})
             yield ("helper", {"fn": "config_del", "a": rng.randrange(0, 8), "b": rng.randrange(0, 4), "items": its})
             yield ("helper", {"fn": "config_poll", "a": rng.choice((0, 1, 2, 7)), "b": rng.choice((0, 1, 255)), "items": its})
+        # the largest list there is: 64 items with 8-byte values (documented 8-byte keys and undocumented size-code-5 IDs)
+        wide = [e for e in db if int(e["t"][1:4]) == 8]
+        for rep in range(2 if not ctx.thorough else 10):
+            its = [item(e, rep % 2 == 0, boundary_values(e["t"], rng)[-1]) for e in rng.sample(wide, min(len(wide), 40))]
+            while len(its) < 64:
+                its.append(unknown_item(5))
+            yield ("helper", {"fn": "config_set", "a": 1, "b": 0, "items": its})
+            yield ("helper", {"fn": "config_set", "a": 7, "b": 1, "items": its[:63]})
         for layers in range(0, 8):
             for txn in range(0, 4):
                 e = rng.choice(db)
